@@ -167,7 +167,7 @@ func (l *DList[T]) Delete(node *DoubleNode[T]) error {
 	}
 
 	// Check if the node to be deleted is the head node.
-	if head.Value == node.Value {
+	if head == node {
 		l.DoubleNode = *head.next
 		// The second node was copied into the head: relink its neighbours to it.
 		l.prev = nil
